@@ -130,14 +130,13 @@ func (g *Genome) mutateConnectSensors(innovations InnovationsObserver, _ *neat.O
 // Mutate the genome by adding a new link between two random NNodes,
 // if NNodes are already connected, keep trying conf.NewLinkTries times
 func (g *Genome) mutateAddLink(innovations InnovationsObserver, generation int, opts *neat.Options) (bool, error) {
-	// If the phenotype does not exist, exit on false, print error
-	// Note: This should never happen - if it does there is a bug
-	if g.Phenotype == nil {
-		if _, err := g.Genesis(generation); err != nil {
-			return false, errors.Wrap(err, "genesis failed while trying to add link")
-		}
-	} else if len(g.Nodes) == 0 {
+	if len(g.Nodes) == 0 {
 		return false, errors.New("genome has no nodes to be connected by new link")
+	}
+	// The network is needed for the recurrence check below. It is expressed anew: a network that was built before the
+	// genome last changed lacks the nodes added since (they have no phenotype analogue)
+	if _, err := g.Genesis(generation); err != nil {
+		return false, errors.Wrap(err, "genesis failed while trying to add link")
 	}
 
 	nodesLen := len(g.Nodes)
